@@ -317,8 +317,8 @@ static void do_op(int h, const char* tok) {
 static void obs(void) {
   printf("obs reqs=%u", loop.active_reqs.count);
   for (int i = 0; i < nH; i++)
-    printf(" h%d:q=%zu/%zu:a=%d", i, uv_udp_get_send_queue_size(H[i]->u), uv_udp_get_send_queue_count(H[i]->u),
-           uv_is_active((uv_handle_t*) H[i]->u));
+    printf(" h%d:q=%zu/%zu:a=%d:s=%u", i, uv_udp_get_send_queue_size(H[i]->u), uv_udp_get_send_queue_count(H[i]->u),
+           uv_is_active((uv_handle_t*) H[i]->u), H[i]->n_souts - H[i]->p_souts);   /* s = scripted outcomes not yet consumed */
   printf("\n");
 }
 static int hid(const char* w) { if (!w || w[0] != 'h' || w[1] < '0' || w[1] > '9') return -1; int i = atoi(w + 1); return i < nH ? i : -1; }
